@@ -124,7 +124,8 @@ def correspondence(ctx):
 
 # ------------------------------------------------------------------ tables
 NAMES = ["orders_per_user", "a<b>&c", "x", "Ünï", "m \"q\"", "long_metric_name_with_many_chars", "<script>", "&amp;",
-         "007", "1e3", "nan", "inf", "12345.678", "-0", "1"]      # text that looks like a number is still text
+         "007", "1e3", "nan", "inf", "12345.678", "-0", "1",      # text that looks like a number is still text
+         "orders per user ", " lead", "two  blanks"]               # blanks at either end belong to the text
 
 
 def rand_result(rng):
@@ -280,7 +281,7 @@ def _tables(ctx):
         er = rand_result(ctx.rng)
         obj = er if ctx.rng.random() < 0.6 else tt.experiment.ExperimentResults({(0, 1): er, ("a", "b"): rand_result(ctx.rng)})
         keys = ctx.rng.choice([None, ["metric", "control", "pvalue"], ["metric", "absent_key", "rel_effect_size_ci"],
-                               ["metric", "note", "treatment"]])
+                               ["metric", "note", "treatment"], ["control", "metric"], ["pvalue", "note"]])     # text column last too
         if keys is not None and not isinstance(obj, tt.experiment.ExperimentResult):
             keys = ["variants"] + keys
         pretty = obj.to_pretty_dicts(keys)
@@ -342,7 +343,35 @@ def _tables(ctx):
     ctx.count("tables", len(cases))
 
 
+def range_case(seed):
+    """format_num for every fixed-point range and up to 13 significant digits: the text parses back to the value within
+    0.5 * 10^(1-sig) relative (checked exactly in rationals on the REAL output)"""
+    import random
+    import tea_tasting.utils as U
+    rng = random.Random(seed)
+    fails = []
+    for _ in range(200):
+        v = rng.choice([-1, 1]) * rng.uniform(1, 10) * 10.0 ** rng.randint(-25, 9)
+        sig = rng.choice([1, 2, 3, 6, 10, 13])
+        fr = rng.choice([(None, None), (None, 1e7), (1e-30, 1e7), (0.001, 10_000_000), (1e-10, None)])
+        try:
+            txt = U.format_num(v, sig, fixed_point_range=fr, thousands_sep="_", decimal_point=".")
+            back = F(txt.replace("_", ""))
+        except Exception as e:  # noqa: BLE001
+            fails.append(f"format_num({v!r}, sig={sig}, fixed_point_range={fr}) raised {type(e).__name__}: {e}")
+            continue
+        if abs(back - F(v)) > F(1, 2) * F(10) ** (1 - sig) * abs(F(v)) * (1 + F(1, 10**6)):
+            fails.append(f"format_num({v!r}, sig={sig}, fixed_point_range={fr}) = {txt!r}: relative error above 0.5e{1 - sig}")
+    return fails
+
+
 def oracle(ctx, deep=False):
+    for _ in range(ctx.n(3, 60)):
+        seed = ctx.rng.randint(0, 10**6)
+        ctx.evaluations += 200
+        ctx.count("oracle:ranges-and-digits")
+        for f in range_case(seed)[:2]:
+            ctx.violations.append({"what": "format_num: " + f.split(" = ")[0][:70], "detail": f, "input": {"range_case": True, "seed": seed}})
     import tea_tasting.utils as U
     # default separators in the C locale: no thousands separator; documented specials
     probes = [(1234567.891, 3, False, "1234568"), (None, 3, False, "-"), (float("nan"), 3, False, "-"), (float("inf"), 3, False, "∞"),
@@ -365,6 +394,9 @@ def oracle(ctx, deep=False):
 def replay(ctx, rp):
     import tea_tasting.utils as U
     inp = rp["input"]
+    if inp.get("range_case"):
+        fails = range_case(inp["seed"])
+        return {"fails": bool(fails), "failures": fails[:5]}
     if "sig" in inp and "value" in inp and isinstance(inp["value"], str) and inp["value"].startswith(("0x", "-0x")):
         v = float.fromhex(inp["value"])
         txt = U.format_num(v, inp["sig"], pct=inp["pct"], thousands_sep="_", decimal_point=".")
